@@ -270,7 +270,7 @@ func runSequence(seq int) {
 			return ids[rng.Intn(len(ids))]
 		}
 		r := rec{"fn": "wstep", "seq": seq, "step": step, "crypto": string(cfg.CryptoType), "op": "", "id": "", "res": "ok", "err": "", "k": 0,
-			"rightPw": true, "wasEncrypted": false, "unlockRestores": true, "wrongPwRejected": true, "onChange": false, "idTaken": false}
+			"rightPw": true, "wasEncrypted": false, "unlockRestores": true, "wrongPwRejected": true, "onChange": false, "idTaken": false, "updKind": "", "seedMatches": false}
 		ulBefore := []string{}
 		for id := range unloaded {
 			ulBefore = append(ulBefore, id)
@@ -278,7 +278,7 @@ func runSequence(seq int) {
 		sort.Strings(ulBefore)
 		r["unloadedBefore"] = ulBefore
 		var opErr error
-		k := rng.Intn(20)
+		k := rng.Intn(24)
 		if viewNext != "" && again < 0 {
 			k = 18
 		}
@@ -458,6 +458,77 @@ func runSequence(seq int) {
 				}
 				return err
 			})
+		case k == 20:
+			// Service.Update (what the node does before a spend: the next change address of a bip44 wallet, made from the public
+			// key without a password), or a label, or a modification that ends in an error
+			id := pick()
+			n := 1 + rng.Intn(2)
+			kind := []string{"addr", "addr", "label", "fail"}[rng.Intn(4)]
+			si, known := seedOf[id]
+			onChange := known && si.typ == wallet.WalletTypeBip44 && rng.Intn(2) == 0
+			if known && si.typ == wallet.WalletTypeCollection && kind == "addr" {
+				kind = "label"
+			}
+			r["op"], r["id"], r["k"], r["updKind"], r["onChange"] = "update", id, n, kind, onChange
+			opErr = s.Update(id, func(w wallet.Wallet) error {
+				switch kind {
+				case "label":
+					w.SetLabel("from-update")
+					return nil
+				case "fail":
+					w.SetLabel("never-to-be-seen")
+					_, _ = w.GenerateAddresses(wallet.OptionGenerateN(1))
+					return fmt.Errorf("the caller gives up")
+				}
+				opts := []wallet.Option{wallet.OptionGenerateN(uint64(n))}
+				if onChange {
+					opts = append(opts, wallet.OptionChange())
+				}
+				_, err := w.GenerateAddresses(opts...)
+				return err
+			})
+			if opErr == nil && kind == "addr" && pwOf[id] != "" && rng.Intn(2) == 0 {
+				viewNext = id
+			}
+		case k == 21 || k == 22:
+			// read-only access: whatever the caller does to what it is handed stays with the caller
+			id := pick()
+			scribble := func(w wallet.Wallet) error {
+				w.SetLabel("scribbled")
+				_, _ = w.GenerateAddresses(wallet.OptionGenerateN(2))
+				if rng.Intn(3) == 0 {
+					return fmt.Errorf("the caller gives up")
+				}
+				return nil
+			}
+			if k == 21 {
+				r["op"], r["id"] = "view", id
+				opErr = s.View(id, scribble)
+			} else {
+				r["op"], r["id"] = "getwallet", id
+				var w wallet.Wallet
+				w, opErr = s.GetWallet(id)
+				if opErr == nil {
+					_ = scribble(w)
+				}
+			}
+		case k == 23:
+			// the seed of an encrypted wallet, for the right password only
+			id := pick()
+			pw := pwOf[id]
+			if rng.Intn(3) == 0 || pw == "" {
+				pw = []string{"wrong", ""}[rng.Intn(2)]
+				r["rightPw"] = false
+			}
+			r["op"], r["id"] = "getseed", id
+			var p []byte
+			if pw != "" {
+				p = []byte(pw)
+			}
+			var seed, pass string
+			seed, pass, opErr = s.GetWalletSeed(id, p)
+			si := seedOf[id]
+			r["seedMatches"] = opErr == nil && seed == si.seed && pass == si.pass
 		default:
 			id := pick()
 			r["op"], r["id"] = "updatesecrets", id
